@@ -1,7 +1,7 @@
 #!/bin/bash
 # Self-test of bin/rs2v.py: single-token edits of the Rust sources must (a) change the generated Gallina and
 # (b) make Proofs/SrcTieP.v stop compiling; an edit outside the subset must make rs2v.py exit with status 2.
-# usage: bin/rs2v_selftest.sh [repo]        (default repo: /repo; it is only read)
+# usage: [ONLY='regex'] bin/rs2v_selftest.sh [repo]   (default repo: /repo; it is only read; ONLY = regex selecting edits by name)
 set -u
 HERE="$(cd "$(dirname "$0")/.." && pwd)"
 REPO="${1:-/repo}"
@@ -11,16 +11,17 @@ TMP="$(mktemp -d /tmp/rs2v_selftest.XXXXXX)"
 trap 'rm -rf "$TMP"' EXIT
 
 FILES="src/action_value.rs src/input_context/events.rs src/input_context/context_instance.rs src/input_context/context_instance/trigger_tracker.rs"
+FILES="$FILES src/input.rs src/input/input_reader.rs"
 for f in "$REPO"/src/input_context/input_condition/*.rs "$REPO"/src/input_context/input_modifier/*.rs; do
   FILES="$FILES ${f#$REPO/}"
 done
 
 # the compiled model files the tie needs
-MODEL="Model/Num Model/Value Model/State Model/Tracker Model/Cond Model/Modif Proofs/ValueP"
+MODEL="Model/Num Model/Value Model/State Model/Tracker Model/Cond Model/Modif Model/Reader Proofs/ValueP"
 # compile order of the regenerated files and the tie files
-CHAIN="Generated/GlamTbl Generated/ValueSrc Generated/EventsSrc Generated/TrackerSrc Proofs/SrcTieP Generated/DataSrc Generated/CondSrc Generated/GlamTbl2 Generated/ModifSrc Proofs/SrcTie2P"
+CHAIN="Generated/GlamTbl Generated/ValueSrc Generated/EventsSrc Generated/TrackerSrc Proofs/SrcTieP Generated/DataSrc Generated/CondSrc Generated/GlamTbl2 Generated/ModifSrc Proofs/SrcTie2P Generated/BevyTbl Generated/ReaderSrc Proofs/SrcTie3P"
 ( cd "$COQ" && [ -f Makefile ] || coq_makefile -f _CoqProject -o Makefile >/dev/null 2>&1
-  cd "$COQ" && timeout 1500 make Model/Modif.vo Proofs/ValueP.vo Proofs/SrcTie2P.vo >/dev/null 2>&1 )
+  cd "$COQ" && timeout 1500 make Model/Reader.vo Proofs/ValueP.vo Proofs/SrcTie2P.vo Proofs/SrcTie3P.vo >/dev/null 2>&1 )
 for f in $MODEL; do
   [ -f "$COQ/$f.vo" ] || { echo "missing $COQ/$f.vo (build the development first)"; exit 1; }
 done
@@ -47,7 +48,7 @@ tie_compiles() {
   local W="$TMP/coqwork" dirty=no
   rm -rf "$W"; mkdir -p "$W/Model" "$W/Proofs" "$W/Generated"
   for f in $MODEL; do cp "$COQ/$f.vo" "$W/$f.vo"; done
-  cp "$COQ/Proofs/SrcTieP.v" "$COQ/Proofs/SrcTie2P.v" "$W/Proofs/"
+  cp "$COQ/Proofs/SrcTieP.v" "$COQ/Proofs/SrcTie2P.v" "$COQ/Proofs/SrcTie3P.v" "$W/Proofs/"
   cp "$1"/*.v "$W/Generated/"
   for f in $CHAIN; do
     [ -f "$W/$f.v" ] || continue
@@ -73,6 +74,7 @@ FAIL=0
 # run_edit NAME FILE OLD NEW [OLD2 NEW2]
 run_edit() {
   local name="$1" file="$2"
+  if [ -n "${ONLY:-}" ] && ! [[ "$name" =~ $ONLY ]]; then return; fi
   fresh_src "$TMP/src"
   edit "$TMP/src/$file" "$3" "$4" || { echo "edit $name: COULD NOT APPLY"; FAIL=1; return; }
   if [ $# -ge 6 ]; then edit "$TMP/src/$file" "$5" "$6" || { echo "edit $name: COULD NOT APPLY"; FAIL=1; return; }; fi
@@ -149,9 +151,31 @@ run_edit dead_zone-axis "$MD/dead_zone.rs" 'value.y = self.dead_zone(value.y);\n
 run_edit dead_zone-kind-order "$MD/dead_zone.rs" '    #[default]\n    Radial,' '    #[default]\n    Axial,' '    Axial,\n}' '    Radial,\n}'
 run_edit dead_zone-snap-literal "$MD/dead_zone.rs" 'scaled_value.min(1.0)' 'scaled_value.min(0.5)'
 
+# ---- third wave: negate, swizzle_axis
+run_edit negate-axis "$MD/negate.rs" 'if self.y {\n                    value.y = -value.y;\n                }\n                value.into()' 'if self.x {\n                    value.y = -value.y;\n                }\n                value.into()'
+run_edit negate-drop-minus "$MD/negate.rs" '(-value).into()' '(value).into()'
+run_edit swizzle-arm "$MD/swizzle_axis.rs" 'SwizzleAxis::ZYX => (0.0, value.y).into(),' 'SwizzleAxis::ZYX => (0.0, value.x).into(),'
+run_edit swizzle-or-pattern "$MD/swizzle_axis.rs" 'SwizzleAxis::YXZ | SwizzleAxis::ZXY => (Vec2::Y * value).into(),\n                SwizzleAxis::ZYX | SwizzleAxis::YZX' 'SwizzleAxis::YXZ | SwizzleAxis::ZYX => (Vec2::Y * value).into(),\n                SwizzleAxis::ZXY | SwizzleAxis::YZX'
+run_edit swizzle-method "$MD/swizzle_axis.rs" 'SwizzleAxis::YZX => value.yzx().into(),' 'SwizzleAxis::YZX => value.zxy().into(),'
+# ---- third wave: input reader
+IR=src/input/input_reader.rs
+run_edit reader-key-consumed-negation "$IR" '&& !self.consumed.keys.contains(&key)' '&& self.consumed.keys.contains(&key)'
+run_edit reader-motion-or-to-and "$IR" '|| self.consumed.mouse_motion' '&& self.consumed.mouse_motion'
+run_edit reader-axis-filter "$IR" '.filter(|&value| value != 0.0)' '.filter(|&value| value == 0.0)'
+run_edit reader-button-ui-flag "$IR" 'let pressed = !self.consumed.ui_wants_mouse' 'let pressed = self.consumed.ui_wants_mouse'
+run_edit reader-mods-intersects "$IR" 'if self.consumed.mod_keys.intersects(mod_keys) {' 'if !self.consumed.mod_keys.intersects(mod_keys) {'
+run_edit reader-any-pressed "$IR" 'if !self.keys.any_pressed(keys) {' 'if self.keys.any_pressed(keys) {'
+run_edit reader-consume-wheel "$IR" 'self.consumed.mouse_wheel = true;' 'self.consumed.mouse_wheel = false;'
+run_edit reader-consume-key-mods "$IR" 'self.consumed.keys.insert(key);\n                self.consumed.mod_keys.insert(mod_keys);' 'self.consumed.keys.insert(key);'
+run_edit reader-consume-axis-set "$IR" 'self.consumed.gamepad_axes.insert(input);' 'self.consumed.gamepad_axes.clear();'
+run_edit reader-reset-motion "$IR" 'self.mouse_motion = false;' 'self.mouse_motion = true;'
+run_edit input-shift-bit "src/input.rs" 'const SHIFT = 0b00000100;' 'const SHIFT = 0b00010000;'
+run_edit input-variant-order "src/input.rs" '[`ActionValue::Axis2D`](crate::action_value::ActionValue::Axis2D).\n    MouseMotion { mod_keys: ModKeys },' '[`ActionValue::Axis2D`](crate::action_value::ActionValue::Axis2D).\n    MouseWheel { mod_keys: ModKeys },' '[`ActionValue::Axis1D`](crate::action_value::ActionValue::Axis1D).\n    MouseWheel { mod_keys: ModKeys },' '[`ActionValue::Axis1D`](crate::action_value::ActionValue::Axis1D).\n    MouseMotion { mod_keys: ModKeys },'
+
 # ---- outside the subset: must be reported, not guessed
 run_unsupported() {
   local name="$1" file="$2"
+  if [ -n "${ONLY:-}" ] && ! [[ "$name" =~ $ONLY ]]; then return; fi
   fresh_src "$TMP/src"
   edit "$TMP/src/$file" "$3" "$4" || { echo "edit $name: COULD NOT APPLY"; FAIL=1; return; }
   rm -rf "$TMP/gen"
@@ -166,6 +190,8 @@ run_unsupported unsupported-unknown-method "$AV" 'Self::Axis1D(value) => value !
 run_unsupported unsupported-new-variant "$CI" '    Fired,\n}' '    Fired,\n    Paused,\n}'
 run_unsupported unsupported-while-loop "$CD/pulse.rs" 'self.timer.reset();\n\n            self.trigger_count = 0;' 'self.timer.reset();\n            while self.trigger_count > 0 { self.trigger_count = 0; }'
 run_unsupported unsupported-lost-mutation "$CD/hold.rs" 'let is_first_trigger = !self.fired;' 'let is_first_trigger = if self.fired { self.fired = false; false } else { true };'
+run_unsupported unsupported-closure-capture "$IR" '.is_ok_and(|gamepad| gamepad.pressed(button)),' '.is_ok_and(move |gamepad| gamepad.pressed(button)),'
+run_unsupported unsupported-bevy-call "$IR" '&& self.keys.pressed(key)' '&& self.keys.just_pressed(key)'
 run_unsupported unsupported-extra-loop-statement "$TT" '        for condition in conditions {' '        self.blocked = false;\n        for condition in conditions {'
 
 if [ "$FAIL" = 0 ]; then echo "selftest: PASS"; else echo "selftest: FAIL"; exit 1; fi
